@@ -78,6 +78,14 @@ Transports == {"wsgi", "base"}
 Validators == {"none", "lxml"}
 \* multipart_att: a SOAP-with-attachments message: the root part AND an attachment with a Content-ID (the envelope is then taken
 \* apart and put together again before it is read)
+\* options the integrator gives the protocol that are NOT about what the parser may load (whitespace, comments, namespaces, the
+\* shape of the tree, polymorphism) - alone ("blank": remove_blank_text=True) or next to an explicit security option that repeats
+\* the default ("blank_nodtd": remove_blank_text=True, load_dtd=False): none of them makes the parser load anything more
+Opts == {"none", "blank", "blank_nodtd", "nsclean", "keep_pis_cdata", "poly_nocleanup"}
+\* the security options an option set gives EXPLICITLY (all others keep their defaults whatever else is given)
+Given(o) == IF o = "blank_nodtd" THEN [k \in {"load_dtd"} |-> FALSE] ELSE [k \in {} |-> FALSE]
+SettingsOf(g) == [k \in DOMAIN Default |-> IF k \in DOMAIN g THEN g[k] ELSE Default[k]]
+OptsAreBenign == \A o \in Opts : SettingsOf(Given(o)) = Default      \* so every attack of the corpus must fail under each of them
 Framings   == {"plain", "charset_decl", "multipart", "multipart_att", "ctrl_char"}     \* ctrl_char: a C0 control character (never legal in XML 1.0) in front of the payload
 Applies(a) == /\ (a.framing \in {"multipart", "multipart_att"} => a.transport = "wsgi" /\ a.prot \in {"soap11", "soap12"})
               /\ (a.kind \in Bombs \ {"attrs_50000"} => a.pos \in {"text_unicode", "text_nested", "anyxml_text"})       \* one bomb is enough per document
@@ -88,10 +96,12 @@ Applies(a) == /\ (a.framing \in {"multipart", "multipart_att"} => a.transport = 
               /\ (a.pos = "anyxml_text" => a.kind \in {"internal_entity", "ext_general_file", "ext_general_http", "laughs_3x4"} /\ a.framing = "plain")
               /\ (a.kind \in HrefBombs => a.prot # "xml" /\ a.pos = "text_nested" /\ a.framing = "plain")
               /\ (a.validator = "lxml" => a.kind \in External \cup Internal /\ a.framing = "plain")
-Attacks == {a \in [kind : Kinds, pos : Positions, prot : Protocols, transport : Transports, framing : Framings, validator : Validators] : Applies(a)}
+              /\ (a.opts # "none" => a.kind \in External \cup Internal /\ a.framing = "plain" /\ a.validator = "none" /\ a.transport = "wsgi"
+                                      /\ a.prot # "schema" /\ a.pos \in {"text_unicode", "attr_value", "text_nested"})
+Attacks == {a \in [kind : Kinds, pos : Positions, prot : Protocols, transport : Transports, framing : Framings, validator : Validators, opts : Opts] : Applies(a)}
 AppliesMore(a) == /\ (a.framing \in {"multipart", "multipart_att"} => a.transport = "wsgi" /\ a.prot \in {"soap11", "soap12"})
                   /\ (IF a.kind \in {"attrs_1000", "attrs_200000"} THEN a.pos = "attr_value" ELSE a.pos \in {"text_unicode", "text_nested"})
-AttacksMore == Attacks \cup {a \in [kind : BombsMore, pos : Positions, prot : Protocols, transport : Transports, framing : Framings, validator : {"none"}] : AppliesMore(a)}
+AttacksMore == Attacks \cup {a \in [kind : BombsMore, pos : Positions, prot : Protocols, transport : Transports, framing : Framings, validator : {"none"}, opts : {"none"}] : AppliesMore(a)}
 
 \* what the driver observes for one attack against a DEFAULT-configured endpoint:
 \*   [called, fault, client, escape, canary (its content seen by user code or in the response), expanded (an internal entity's
@@ -114,5 +124,5 @@ Fails(a, o) == (IF o.canary THEN {"CanaryLeaked"} ELSE {}) \cup (IF o.file_opene
                \cup (IF o.seconds10 > 50 \/ o.mb > 300 THEN {"Unbounded"} ELSE {})
                \cup (IF a.kind \in HrefBombs /\ o.nodes > 4 * o.reqnodes THEN {"ReferencesAmplified"} ELSE {})
                \cup (IF a.framing = "ctrl_char" /\ ~(~o.called /\ o.fault /\ o.client) THEN {"IllFormedServed"} ELSE {})
-ASSUME DefaultsAreSafe /\ RelaxedIsNot
+ASSUME DefaultsAreSafe /\ RelaxedIsNot /\ OptsAreBenign
 =============================================================================
